@@ -277,7 +277,7 @@ func runC14(a *Args) error {
 		return err
 	}
 	w := NewCaseWriter(a, "C14", e.prelude(), "case", "run")
-	w.Rule = "(1) hook-driven goroutine schedules: every interleaving of the 4 hook steps of 2 writers (70 orders; thorough: with every placement of 2 readers = 6300, plus sampled 3x3) x same/different URL x bundles of different lengths, with 2 whole reads at sampled positions, plus every interleaving of a complete writer A with a writer B of the same URL abandoned after 1..3 steps with reads just before A's rename, right after it and at the end, plus sequential histories on one long-lived reader instance (Set A, Get, Set B, Get, Set C abandoned after k steps, Get), plus truncated schedules (writers abandoned at every hook point); plus fault injection (while a writer is held at the closed point os.Rename is made to fail - a directory in place of the absent key, or the temporary file replaced by an empty directory - so the error path of WriteFile runs and its clean-up is observable: the failing Set in every interleaving with a complete one, and in sequential histories Set A, Get, Set B fails, Get, Set C, Get); readers share one FileCache instance, every writer has its own; (2) writer child processes SIGKILLed at each hook point, read back, followed by a complete write and a second read; (3) two writer processes stepped through named pipes; (4) free-running goroutine storms with 150 KB bundles (2 URLs x 1-2 writer goroutines, and 8 writer goroutines x 4 readers on one URL) as API-level histories on a global clock: every read must be a miss or a complete bundle some writer stored for that key and not stale; (5) writer processes storing 4 MB bundles in a loop killed at a random time and read back; (6) alternating storms: one writer goroutine (or two writer processes) alternates a 1-entry and a 200-entry bundle on one URL for 1.5 s while 4 readers Get continuously: every read must be byte-identical to one of the two bundles (all bad reads and a sample of good ones are evaluated by the oracle); (7) reader ping-pong without hooks: a Get is started, a Set of the other-size bundle completes, thousands of times; (8) bundles that share the base CRL bytes and differ only in the delta (and vice versa, and identical = idempotent): Set A / Get / Set A' / Get sequentially, overlapping in every sampled interleaving, and in storms; (9) URL variants (upper-case twin, empty URL) and bundles whose cache files have equal length. non-trivial = at least one read or listing entry observed after some writer passed the created point; distinct = distinct (family, writers, schedule, observation) tuples"
+	w.Rule = "(1) hook-driven goroutine schedules: every interleaving of the 4 hook steps of 2 writers (70 orders; thorough: with every placement of 2 readers = 6300, plus sampled 3x3) x same/different URL x bundles of different lengths, with 2 whole reads at sampled positions, plus every interleaving of a complete writer A with a writer B of the same URL abandoned after 1..3 steps with reads just before A's rename, right after it and at the end, plus sequential histories on one long-lived reader instance (Set A, Get, Set B, Get, Set C abandoned after k steps, Get), plus truncated schedules (writers abandoned at every hook point); plus fault injection (while a writer is held at the closed point os.Rename is made to fail - a directory in place of the absent key, or the temporary file replaced by an empty directory - so the error path of WriteFile runs and its clean-up is observable: the failing Set in every interleaving with a complete one, and in sequential histories Set A, Get, Set B fails, Get, Set C, Get); readers share one FileCache instance, every writer has its own; (2) writer child processes SIGKILLed at each hook point, read back, followed by a complete write and a second read; (3) two writer processes stepped through named pipes; (4) free-running goroutine storms with 150 KB bundles (2 URLs x 1-2 writer goroutines, and 8 writer goroutines x 4 readers on one URL) as API-level histories on a global clock: every read must be a miss or a complete bundle some writer stored for that key and not stale; (5) writer processes storing 4 MB bundles in a loop killed at a random time and read back; (6) alternating storms: one writer goroutine (or two writer processes) alternates a 1-entry and a 200-entry bundle on one URL for 1.5 s while 4 readers Get continuously: every read must be byte-identical to one of the two bundles (all bad reads and a sample of good ones are evaluated by the oracle); (7) reader ping-pong without hooks: a Get is started, a Set of the other-size bundle completes, thousands of times; (8) bundles that share the base CRL bytes and differ only in the delta (and vice versa, and identical = idempotent): Set A / Get / Set A' / Get sequentially, overlapping in every sampled interleaving, and in storms; (9) URL variants (upper-case twin, empty URL) and bundles whose cache files have equal length; (10) write faults: a writer process under RLIMIT_FSIZE = 0, 1, half, all-but-one byte of the entry, so that write(2) inside WriteFile fails after a partial write (error path at the open stage), with and without an earlier complete Set, read back. non-trivial = at least one read or listing entry observed after some writer passed the created point; distinct = distinct (family, writers, schedule, observation) tuples"
 	w.Assumptions = []string{
 		"rename(2) atomically replaces a directory entry; an opened inode is unaffected by rename/unlink of its name; O_EXCL creation never returns an existing name (kernel semantics, the meaning of the model's events)",
 		"crypto/sha256 is collision free on the URLs used; hex(sha256(url)) is taken from crypto/sha256 (outside /repo) as an input table",
@@ -294,5 +294,6 @@ func runC14(a *Args) error {
 	g.randomKills()
 	g.altStorms()
 	g.pingPong()
+	g.writeFaults()
 	return w.Close()
 }
